@@ -728,6 +728,15 @@ static void builtin_alloca(void) {
 }
 
 // Generate code for a given node.
+// cmpxchg compares and stores general-purpose registers, so the bits
+// of a float or double operand are moved there.
+static void flonum_to_gp(Type *ty) {
+  if (ty->kind == TY_FLOAT)
+    println("  movd %%xmm0, %%eax");
+  else if (ty->kind == TY_DOUBLE)
+    println("  movq %%xmm0, %%rax");
+}
+
 static void gen_expr(Node *node) {
   println("  .loc %d %d", node->tok->file->file_no, node->tok->line_no);
 
@@ -1027,17 +1036,22 @@ static void gen_expr(Node *node) {
     println("  lea %s(%%rip), %%rax", node->unique_label);
     return;
   case ND_CAS: {
+    int sz = node->cas_addr->ty->base->size;
+    if (sz != 1 && sz != 2 && sz != 4 && sz != 8)
+      error_tok(node->tok, "atomic operation on an object of %d bytes is not supported", sz);
+
     gen_expr(node->cas_addr);
     push();
     gen_expr(node->cas_new);
+    flonum_to_gp(node->cas_new->ty);
     push();
     gen_expr(node->cas_old);
     println("  mov %%rax, %%r8");
     load(node->cas_old->ty->base);
+    flonum_to_gp(node->cas_old->ty->base);
     pop("%rdx"); // new
     pop("%rdi"); // addr
 
-    int sz = node->cas_addr->ty->base->size;
     println("  lock cmpxchg %s, (%%rdi)", reg_dx(sz));
     println("  sete %%cl");
     println("  je 1f");
@@ -1047,13 +1061,21 @@ static void gen_expr(Node *node) {
     return;
   }
   case ND_EXCH: {
+    int sz = node->lhs->ty->base->size;
+    if (sz != 1 && sz != 2 && sz != 4 && sz != 8)
+      error_tok(node->tok, "atomic operation on an object of %d bytes is not supported", sz);
+
     gen_expr(node->lhs);
     push();
     gen_expr(node->rhs);
+    flonum_to_gp(node->rhs->ty);
     pop("%rdi");
 
-    int sz = node->lhs->ty->base->size;
     println("  xchg %s, (%%rdi)", reg_ax(sz));
+    if (node->ty->kind == TY_FLOAT)
+      println("  movd %%eax, %%xmm0");
+    else if (node->ty->kind == TY_DOUBLE)
+      println("  movq %%rax, %%xmm0");
     return;
   }
   }
